@@ -209,6 +209,75 @@ theorem C28_remainder_is_fraction (rate ts0 seq0 : Nat) (ops : List Op) :
   rw [hinv.2]
   exact Nat.mod_lt _ (by decide)
 
+/-! ## the initial values are parameters (any arithmetic)
+
+A track created without `WithRTPSequenceNumber` / `WithRTPTimestamp` starts at values pion/rtp draws at
+random.  Nothing above depends on them: `C28_sequence`, `C28_padding_sequence` and `C28_no_drift` hold for
+every `seq0`, `ts0`.  The next theorems say the same from the observer's side: changing the initial values
+shifts every packet by the same amounts and changes nothing else, so the values *relative to the first
+packet* — what the harness reports and the judge evaluates — are those of the history started at 0. -/
+
+def shiftPkt (ds dt : Nat) (p : Pkt) : Pkt := { p with seq := (p.seq + ds) % M16, ts := (p.ts + dt) % M32 }
+
+/-- two states that differ only by the shift -/
+def Shifted {R : Type} (ds dt : Nat) (s s' : St R) : Prop :=
+  s'.rate = s.rate ∧ s'.seq = s.seq + ds ∧ s'.ts = (s.ts + dt) % M32 ∧ s'.rem = s.rem
+
+theorem step_shift {R : Type} (A : Arith R) (ds dt : Nat) (s s' : St R) (o : Op) (h : Shifted ds dt s s') :
+    Shifted ds dt (step A s o).1 (step A s' o).1 ∧ (step A s' o).2 = (step A s o).2.map (shiftPkt ds dt) := by
+  obtain ⟨s'rate, s'seq, s'ts, s'rem⟩ := s'
+  obtain ⟨h1, h2, h3, h4⟩ := h
+  simp only at h1 h2 h3 h4
+  subst h1 h2 h3 h4
+  cases o with
+  | sample x =>
+    simp only [step, writeSample, packetize, Shifted, List.map_map, true_and]
+    refine ⟨⟨by omega, ?_, ?_⟩, ?_⟩
+    · split <;> simp only [M32] <;> omega
+    · split <;> rfl
+    · apply List.map_congr_left
+      intro j _
+      simp only [Function.comp, shiftPkt, Pkt.mk.injEq, and_true]
+      refine ⟨by simp only [M16]; omega, ?_⟩
+      split <;> simp only [M32] <;> omega
+  | padding k =>
+    simp only [step, generatePadding, Shifted, List.map_map, true_and, and_true]
+    refine ⟨by omega, ?_⟩
+    apply List.map_congr_left
+    intro j _
+    simp only [Function.comp, shiftPkt, Pkt.mk.injEq, and_true, M16, M32]
+    omega
+  | rebind => simp [step, Shifted]
+
+theorem run_shift {R : Type} (A : Arith R) (ds dt : Nat) (s s' : St R) (ops : List Op) (h : Shifted ds dt s s') :
+    (run A s' ops).2 = (run A s ops).2.map (List.map (shiftPkt ds dt)) := by
+  induction ops generalizing s s' with
+  | nil => simp [run]
+  | cons o os ih =>
+    obtain ⟨h1, h2⟩ := step_shift A ds dt s s' o h
+    simp only [run, List.map_cons, h2, ih _ _ h1]
+
+/-- **Initial values are parameters.**  For every arithmetic, every history and every initial sequence
+    number and timestamp, the packets are those of the same history started at (0, 0), each shifted by
+    `seq0` (mod 2^16) and `ts0` (mod 2^32). -/
+theorem C28_initial_values_shift {R : Type} (A : Arith R) (rate ts0 seq0 : Nat) (ops : List Op) :
+    (run A (init A rate ts0 seq0) ops).2
+      = (run A (init A rate 0 0) ops).2.map (List.map (shiftPkt seq0 ts0)) := by
+  apply run_shift
+  simp [Shifted, init, M32]
+
+/-- Every packet of every history, for arbitrary initial values: the sequence number is the initial one
+    plus the packets so far plus everything skipped so far (`seqsOf pre`, the `N` of this sample, the
+    position `j` inside it), mod 2^16 — stated for the packet list itself, not only for the numbers. -/
+theorem C28_every_packet_sequence {R : Type} (A : Arith R) (rate ts0 seq0 : Nat) (pre : List Op) (x : Sample)
+    (p : Pkt) (hp : p ∈ (writeSample A (run A (init A rate ts0 seq0) pre).1 x).2) :
+    ∃ j, j < x.n ∧ p.seq = (seq0 + seqsOf pre + x.dropped + j) % M16 := by
+  simp only [writeSample] at hp
+  obtain ⟨j, hj, hs, _⟩ := mem_packetize _ _ _ _ hp
+  refine ⟨j, hj, ?_⟩
+  rw [hs, (run_seq A _ pre).1]
+  rfl
+
 /-! ## non-vacuity -/
 
 -- 30 fps video at 90 kHz: 33 333 333 ns per frame is 2999.99997 ticks, so frames advance by 2999, 3000, 3000, … and
@@ -226,5 +295,11 @@ example :
 example : (run exact (init exact 90000 0 0) [.sample ⟨1000000000, 65535, 1⟩, .sample ⟨1000000000, 0, 1⟩]).2
     = [[⟨65535, (65535 * 90000) % 4294967296, true, false⟩], [⟨65536 % 65536, (65536 * 90000) % 4294967296, true, false⟩]] := by
   decide
+
+-- the same history from two different starts: identical up to the shift (here across both wrap-arounds)
+example :
+    (run exact (init exact 48000 4294967000 65535) [.sample ⟨20000000, 0, 1⟩, .sample ⟨20000000, 3, 2⟩]).2
+      = (run exact (init exact 48000 0 0) [.sample ⟨20000000, 0, 1⟩, .sample ⟨20000000, 3, 2⟩]).2.map
+          (List.map (shiftPkt 65535 4294967000)) := by decide
 
 end WebrtcVerif.C28
